@@ -59,6 +59,13 @@ func verifChangeSet(set int, sch, other *schema.Schema) []schema.Change {
 		return []schema.Change{&schema.AddSchema{S: sch}, &schema.AddTable{T: t0}}
 	case 9:
 		return []schema.Change{&schema.DropSchema{S: sch}}
+	case 11:
+		// objects that carry no schema of their own (an enum type declared without one):
+		// a requested qualifier applies to them as well
+		st := &schema.EnumType{T: "status", Values: []string{"a", "b"}}
+		t4 := schema.NewTable("t4").SetSchema(sch).AddColumns(schema.NewIntColumn("id", "integer"), schema.NewEnumColumn("st", schema.EnumName("status"), schema.EnumValues("a", "b")))
+		t4.Columns[1].Type.Type = st
+		return []schema.Change{&schema.AddObject{O: st}, &schema.AddTable{T: t4}}
 	}
 	// tables of two schemas
 	t3 := schema.NewTable("t3").SetSchema(other).AddColumns(schema.NewIntColumn("id", "integer"))
@@ -78,7 +85,7 @@ func verifStmts(p *migrate.Plan) []string {
 
 // verifQualified: every quoted table identifier in stmt is preceded by `q`.
 func verifQualified(stmt, q string, open, close byte) bool {
-	for _, name := range []string{"t0", "t1", "t2"} {
+	for _, name := range []string{"t0", "t1", "t2", "t4", "status"} {
 		ident := string(open) + name + string(close)
 		pre := string(open) + q + string(close) + "."
 		for i := 0; i+len(ident) <= len(stmt); i++ {
@@ -97,7 +104,7 @@ func verifC16(plan func(context.Context, []schema.Change, ...migrate.PlanOption)
 	name := verifMarker("s", 'x', 'z')
 	sch := schema.New(name)
 	other := schema.New("w" + name)
-	set := verifChoice("set", 11)
+	set := verifChoice("set", 12)
 	mode := verifChoice("qualifier", 5)
 	changes := verifChangeSet(set, sch, other)
 	var opts []migrate.PlanOption
@@ -117,7 +124,7 @@ func verifC16(plan func(context.Context, []schema.Change, ...migrate.PlanOption)
 		opts = append(opts, func(o *migrate.PlanOptions) { o.SchemaQualifier = &q })
 	}
 	p, err := plan(context.Background(), changes, opts...)
-	if mode != 2 && set >= 8 {
+	if mode != 2 && set >= 8 && set != 11 {
 		verifReach("rejected")
 		verifAssert(err != nil, "schema-level and multi-schema change sets are rejected for a schema-scoped plan")
 		return
